@@ -169,7 +169,8 @@ def dispatcher_clauses(reg, paths, lists, upto, src=lambda j: f"g_src{j}"):
             for _, t in dec.ensures)
         out += [
             (f"kind{j}-length", f"len({L}) == len({G})"),
-            (f"kind{j}-sources-increasing", f"forall(0, len({G}), lambda k: 0 <= {G}[k] and {G}[k] < {upto} and implies(k + 1 < len({G}), {G}[k] < {G}[k + 1]))"),
+            (f"kind{j}-sources-in-range", f"forall(0, len({G}), lambda k: 0 <= {G}[k] and {G}[k] < {upto})"),
+            (f"kind{j}-sources-increasing", f"forall(0, len({G}), lambda a: forall(a + 1, len({G}), lambda b: {G}[a] < {G}[b]))"),
             (f"kind{j}-sources-claimed-by-this-kind", f"forall(0, len({G}), lambda k: {first_is(paths, j, f'lines[{G}[k]]')})"),
             (f"kind{j}-data-decoded-from-source-line", f"forall(0, len({G}), lambda k: {mirror})"),
             # g_at[i] is the position of line i's datum in its kind's list (-1: unparsable)
